@@ -68,7 +68,11 @@ class Macro:
 class FunDecl:
     """uninterpreted spec function; heap = names of heap arrays it implicitly depends on"""
 
-    def __init__(self, name, params, ret, heap=(), definition=None):
+    def __init__(self, name, params, ret, heap=(), definition=None, by_value=False, prefix_recursive=False):
+        # prefix_recursive: f(seq, n) is defined by recursion on n and reads only seq[0..n): the engine then adds the frame
+        # axioms "independent of the length argument" and "unchanged by a store at an index >= n" (trusted: induction on n)
+        self.prefix_recursive = prefix_recursive
+        self.by_value = by_value    # list parameters are passed as (content array, length): the function depends on the value only
         self.name = name
         self.params = [(n, parse_ty(t)) for n, t in params]
         self.ret = parse_ty(ret)
@@ -124,8 +128,8 @@ class Registry:
     def define(self, name, params, body):
         self.macros[name] = Macro(name, params, body)
 
-    def declare_fun(self, name, params, ret, heap=(), definition=None):
-        self.funs[name] = FunDecl(name, params, ret, heap, definition)
+    def declare_fun(self, name, params, ret, heap=(), definition=None, by_value=False, prefix_recursive=False):
+        self.funs[name] = FunDecl(name, params, ret, heap, definition, by_value, prefix_recursive)
 
     def lemma(self, name, **kw):
         self.lemmas[name] = Lemma(name, **kw)
